@@ -383,7 +383,7 @@ func MainC16(args []string) int {
 	}
 	// the repository's published vector
 	mk("23753528", "FOOBAR", nil, nil, "ok")
-	auxCalls := []string{"LA9AUX", "LA8TAC-1", "N0CALL"}
+	auxCalls := []string{"LA9AUX", "ops@example.org", "LA8TAC-1", "N0CALL"}
 	for i := 0; i < *n; i++ {
 		var challenge string
 		switch rng.Intn(6) {
@@ -393,11 +393,16 @@ func MainC16(args []string) int {
 			challenge = "ABC-not digits " + fmt.Sprint(rng.Intn(1000))
 		case 2:
 			challenge = fmt.Sprintf("%040d", rng.Int63())
+		case 3:
+			// challenges that begin with characters of the ";PQ: " prefix itself
+			challenge = []string{"QX482913", "PQ123456", ":1234567", ";;PQ: 12", "Q", "PPPPPPPP", "P:Q;1234"}[rng.Intn(7)]
 		default:
 			challenge = fmt.Sprintf("%08d", rng.Intn(100000000))
 		}
 		pw := pwAlphabet[rng.Intn(len(pwAlphabet))]
-		if rng.Intn(2) == 0 {
+		if rng.Intn(25) == 0 {
+			pw = "" // an empty password is a password: the response is still defined
+		} else if rng.Intn(2) == 0 {
 			bb := make([]byte, 1+rng.Intn(20))
 			for j := range bb {
 				bb[j] = byte(32 + rng.Intn(95))
@@ -406,7 +411,7 @@ func MainC16(args []string) int {
 		}
 		var aux []string
 		auxpw := map[string]string{}
-		for _, a := range auxCalls[:rng.Intn(4)] {
+		for _, a := range auxCalls[:rng.Intn(5)] {
 			aux = append(aux, a)
 			if rng.Intn(2) == 0 {
 				auxpw[a] = pwAlphabet[rng.Intn(len(pwAlphabet))] + fmt.Sprint(rng.Intn(10))
